@@ -14,7 +14,7 @@ from ..report import Ctx
 from ..strmodel import eval_atom, eval_sstr
 from ..tables import RegexFacts, sre_c, sre_parse
 from ..values import (ALL_KINDS, Frag, SBool, SDict, SFunc, SInt, SList, SNew, SObj, SOpaque, SSplat, SStr, Sym, Unmodelled, short)
-from .c11 import LISTING, listing_tokens
+from .c11 import LISTING, listing_tokens, hoist_listing_shapes
 
 CORE = "htmltools._core"
 SER = f"{CORE}:HTMLDependency.serialize_to_script_json"
@@ -287,6 +287,7 @@ def text_render(ctx: Ctx, I: Interp) -> None:
         return ({fn.args.args[0].arg: s, "lib_prefix": lp, "include_version": iv}, s)
 
     n = 0
+    run_cache: Dict[str, Any] = {}
     for l in I.run_function(CORE, "HTMLTextDocument.render", mk, cfg):
         s, lp, iv = l.run.__dict__["o"]
         ctx.require(l.kind == "return" and isinstance(l.value, SDict), "HTMLTextDocument.render does not return a dict")
@@ -346,10 +347,41 @@ def text_render(ctx: Ctx, I: Interp) -> None:
         for e in lst:
             t = e.value[0]
             lt = listing_tokens(t.args[1], l) if len(t.args) > 1 else None
+            sib = run_cache.setdefault("hoist", hoist_listing_shapes(prog, I))
+            mine = (lt[0], lt[1]) if lt is not None else ("?", short(t.args[1]) if len(t.args) > 1 else None)
+            ctx.check(len(sib) == 1 and mine == sib[0], "C13.sibling", "the listing is written exactly as HTMLDocument._hoist_head_content writes it", where,
+                      f"text document: {mine}; HTMLDocument: {sib}",
+                      f"HTMLTextDocument.render writes the dependency listing as {mine} while HTMLDocument writes {sib}: the two rendering routes give different markup",
+                      witness="a dependency whose name contains '&': HTMLTextDocument(...).render() vs HTMLDocument(...).render()")
             ok = lt is not None and (lt[0], lt[1]) == LISTING and t.kwargs.get("type") == "application/html-dependencies" \
                 and isinstance(lt[2], SObj) and (lt[2].meta.get("attr_of") or (None, None))[1] == "_deps"
             ctx.check(bool(ok), "C13.sibling", "same dependency listing as HTMLDocument puts in <head> (name[version];..., application/html-dependencies)", where,
                       f"listing {short(t)}", "the listing written by HTMLTextDocument differs from the one HTMLDocument writes: the two rendering routes are not equivalent")
+        # the listing is written exactly when there is at least one dependency (as HTMLDocument does)
+        deps_obj = s.attrs.get("_deps") if isinstance(s, SObj) else None
+        du = getattr(deps_obj, "uid", None)
+        ne = None
+        for a_, v_ in l.atoms:
+            if not (isinstance(a_, tuple) and len(a_) > 1 and a_[1] == du):
+                continue
+            if a_[0] == "len-cmp":
+                op_, c_ = a_[2], a_[3]
+                if (op_, c_) in ((">", 0), ("!=", 0), (">=", 1)):
+                    ne = bool(v_)
+                elif (op_, c_) in (("==", 0), ("<", 1), ("<=", 0)):
+                    ne = not bool(v_)
+                else:
+                    ne = "other"
+            elif a_[0] == "nonempty":
+                ne = bool(v_)
+            elif a_[0] == "count" and ne is None:
+                ne = "count"
+        if ne == "count":
+            cs_ = [str(v_) for a_, v_ in l.atoms if isinstance(a_, tuple) and a_[0] == "count" and a_[1] == du]
+            ne = not all(c == "n=0" for c in cs_)
+        ctx.check(ne in (True, False) and bool(lst) == ne, "C13.sibling", "the dependency listing is written iff there is at least one dependency (as in HTMLDocument)", where,
+                  f"listing={bool(lst)} under non-empty={ne}", f"HTMLTextDocument.render writes the dependency listing={bool(lst)} on a path where 'there are dependencies' is {ne}: "
+                  f"the inserted markup differs from what HTMLDocument puts in <head>", witness="HTMLTextDocument(html, deps=[d], deps_replace_pattern=p).render()")
         ext = maps_
         okx = len(ext) == 1 and ext[0].value and isinstance(ext[0].value[0], SList) and ext[0].value[0].mode == "map"
         if ctx.check(bool(okx), "C13.sibling", "the dependency tags are as_html_tags(...) of every stored dependency, in order", where, f"extend {[short(e.value[0]) for e in ext]}",
@@ -362,6 +394,57 @@ def text_render(ctx: Ctx, I: Interp) -> None:
                       "as_html_tags(lib_prefix=lib_prefix, include_version=include_version) over self._deps", where, f"as_html_tags kwargs { {k: short(v) for k, v in kw.items()} }",
                       "lib_prefix / include_version are not forwarded like HTMLDocument does")
     ctx.min_count("HTMLTextDocument.render paths", n, 1)
+
+
+def instance_extract(ctx: Ctx, I: Interp) -> None:
+    """HTMLTextDocument.__init__ / _extract_serialized_html_deps: the text is replaced by the stripped text and the stored list is
+    extended with exactly the extractor's list (no further resolution, filtering or re-ordering)."""
+    prog = ctx.prog
+    q = "HTMLTextDocument._extract_serialized_html_deps"
+    where = f"{CORE}:{q}"
+    fn = prog.function(CORE, q)
+    cfg = Config()
+    cfg.opaque_all = True
+
+    def mk(run: Any):
+        s = SObj("self", {"HTMLTEXTDOC"})
+        run.__dict__["s"] = s
+        return ({fn.args.args[0].arg: s}, s)
+
+    n = 0
+    for l in I.run_function(CORE, q, mk, cfg):
+        ctx.require(l.kind == "return", f"{q} raises")
+        n += 1
+        s = l.run.__dict__["s"]
+        ext = [e for e in l.effects if e.kind == "call" and getattr(e.target, "qual", "").endswith("_static_extract_serialized_html_deps")]
+        ctx.require(len(ext) == 1, f"{q} does not call the static extractor exactly once")
+        h_arg = ext[0].value[0] if ext[0].value else None
+        ok_in = isinstance(h_arg, SObj) and (h_arg.meta.get("attr_of") or (None, None)) == (s, "_html")
+        deps_attr = s.attrs.get("_deps")
+        muts = [e for e in l.effects if (e.kind in ("mutcall", "call") and e.key is not None and (e.key == "extend" or str(getattr(e.target, "qual", "")).endswith(".extend"))
+                                         and (e.target is deps_attr or e.key is deps_attr))]
+        stores = [e for e in l.effects if e.kind == "store_attr" and e.target is s]
+        st_html = [e for e in stores if e.key == "_html"]
+        st_deps = [e for e in stores if e.key == "_deps"]
+
+        def _component(v: Any, i: int) -> bool:
+            comp = v.meta.get("component_of") if isinstance(v, SObj) else None
+            if comp is not None:
+                return i == comp[1] and _is_static_result(comp[0])
+            io = v.meta.get("item_of") if isinstance(v, SObj) else None
+            return io is not None and io[1] == i and _is_static_result(io[0])
+
+        def _is_static_result(o: Any) -> bool:
+            c = o.meta.get("call") if isinstance(o, SObj) else (o.__dict__.get("call") if isinstance(o, SOpaque) else None)
+            return c is not None and getattr(c.get("func"), "qual", "").endswith("_static_extract_serialized_html_deps")
+
+        ext_args = [e.value[0] if e.value else None for e in muts]
+        ok = ok_in and len(st_html) == 1 and _component(st_html[0].value, 0) and not st_deps and len(muts) == 1 and _component(ext_args[0], 1)
+        ctx.check(bool(ok), "C13.extract", "the stored text becomes the stripped text and the stored list is extended with the extracted dependencies as they are", where,
+                  f"_html := {short(st_html[0].value) if st_html else None}; _deps: stores {[short(e.value) for e in st_deps]} extends {[short(x) for x in ext_args]}",
+                  "HTMLTextDocument does not keep the extracted dependencies exactly as the extractor returns them (one per distinct serialisation, in order of appearance): "
+                  "they are resolved, filtered, replaced or re-ordered before being stored", witness="two serialised dependencies with the same name and different versions")
+    ctx.min_count(f"{q} paths", n, 1)
 
 
 def json_mode(ctx: Ctx, I: Interp) -> None:
@@ -397,6 +480,12 @@ def json_mode(ctx: Ctx, I: Interp) -> None:
                 continue
         ctx.check(appended == (mode == "json"), "C13.mode", f"serialised dependencies are appended iff the mode is 'json' (mode {mode})", where,
                   f"mode {mode}: returns {short(l.value)}", f"in mode {mode!r} the serialised dependencies are {'not ' if mode == 'json' else ''}appended to str(x)")
+        if mode == "json" and appended and isinstance(l.value, SStr):
+            fr = [f for f in l.value.frags if not (f.kind == "LIT" and f.a == "")]
+            shape = len(fr) == 2 and fr[0].kind == "OF" and fr[1].kind == "OP" and isinstance(fr[1].a, tuple) and fr[1].a[:2] == ("join", "\n")
+            ctx.check(shape, "C13.mode", "in json mode the result is the rendered markup followed by the serialisations joined by newlines, nothing else", where,
+                      f"returns {short(l.value)}", f"in json mode str(x) is {short(l.value)}: extra text is added around the serialised dependencies "
+                      f"(e.g. a separator that is also written when there are no dependencies)", witness="str(div('a')) in json mode")
         if mode == "json" and appended:
             ok = False
             src = None
@@ -420,12 +509,54 @@ def json_mode(ctx: Ctx, I: Interp) -> None:
                 else:
                     ok = False
                     break
+            # ... and each one is written by the serialiser that neutralises "</" (not by a second, hand-made writer)
+            for f_ in joins:
+                it_, var_ = f_.b.get("item"), f_.b.get("var")
+                if it_ is None:
+                    # a loop-built list: the appended values
+                    sq_ = f_.b.get("seq")
+                    vals_ = []
+                    if isinstance(sq_, SList):
+                        from ..loopbuilt import contributions as _contrib
+                        cands_ = [sq_] + ([sq_.__dict__["entry"]] if isinstance(sq_.__dict__.get("entry"), SList) else [])
+                        for cnd_ in cands_:
+                            vals_ += [(c_["value"], c_["element"]) for c_ in _contrib(l, cnd_)]
+                    pairs_ = vals_
+                else:
+                    pairs_ = [(it_, var_)]
+                for val_, el_ in pairs_:
+                    ctx.check(_is_serialised(val_, el_), "C13.mode", "each appended piece is dep.serialize_to_script_json().get_html_string()", where,
+                              f"appends {short(val_)} per dependency",
+                              f"in json mode a dependency is written as {short(val_)}, not through serialize_to_script_json().get_html_string(): the \"</\" neutralisation "
+                              f"and the marker attribute of that serialiser are bypassed", witness="str(div(dep_with('</script>' in a field))) in json mode")
             ctx.check(ok and bool(srcs), "C13.mode", "the dependencies serialised in json mode are exactly those of the rendering result (rendered['dependencies'])", where,
                       f"serialises the elements of {short(src)}",
                       f"in json mode the serialised dependencies are taken from {short(src)}, not from the dependency list of the rendering that produced the markup: "
                       f"dependencies that only appear after tagify() (widgets) are never serialised, so post-processing with HTMLTextDocument loses them",
                       witness="str(div(Widget())) in json mode, Widget().tagify() returning a tag with a dependency")
     ctx.require(seen == {"json", "default"}, "_render_tag_or_taglist does not branch on the render mode")
+
+
+def _is_serialised(v: Any, el: Any) -> bool:
+    """v == el.serialize_to_script_json().get_html_string()"""
+    recv = None
+    if isinstance(v, SStr) and len(v.frags) == 1 and v.frags[0].kind == "OP" and isinstance(v.frags[0].a, tuple) \
+            and v.frags[0].a[:1] == ("call",) and str(v.frags[0].a[1]).endswith("get_html_string") and isinstance(v.frags[0].b, dict):
+        if v.frags[0].b.get("args") or v.frags[0].b.get("kwargs"):
+            return False
+        recv = v.frags[0].b.get("recv")
+    elif isinstance(v, SOpaque) and (v.__dict__.get("method_call") or {}).get("name") == "get_html_string":
+        mc = v.__dict__["method_call"]
+        if mc.get("args") or mc.get("kwargs"):
+            return False
+        recv = mc.get("recv")
+    if recv is None:
+        return False
+    c = recv.meta.get("call") if isinstance(recv, SObj) else None
+    if c is not None:
+        return getattr(c.get("func"), "qual", "").endswith("serialize_to_script_json") and c.get("recv") is el and not c.get("args") and not c.get("kwargs")
+    mc2 = recv.__dict__.get("method_call") if isinstance(recv, SOpaque) else None
+    return bool(mc2) and mc2.get("name") == "serialize_to_script_json" and mc2.get("recv") is el and not mc2.get("args") and not mc2.get("kwargs")
 
 
 def _lists(l: Any) -> List[SList]:
@@ -451,4 +582,5 @@ def check(ctx: Ctx) -> None:
     tag = neutraliser(ctx, I)
     extraction(ctx, I, tag)
     text_render(ctx, I)
+    instance_extract(ctx, I)
     json_mode(ctx, I)
